@@ -294,8 +294,14 @@ impl AuxBoxList {
                 self.jbrd.finalize()?;
             }
             Some(ty) => {
-                self.current_box.finalize()?;
+                let result = self.current_box.finalize();
                 let finished_box = std::mem::replace(&mut self.current_box, AuxBoxReader::new());
+                if let Err(e) = result {
+                    // Discard the box which failed to finalize, so that the following boxes start
+                    // with a fresh reader.
+                    self.current_box_ty = None;
+                    return Err(e);
+                }
                 self.boxes.push((ty, finished_box));
             }
             None => {
